@@ -51,6 +51,9 @@ type c16Case struct {
 	Pairs bool
 	// Fault (file back-end, sequential histories): a disk fault during operation number Target
 	Fault fsFault
+	// Volume: 300 deliveries to one mailbox and then its purge while one observer is stuck in its
+	// first invocation: hundreds of events wait for that listener
+	Volume bool
 }
 
 func (k *c16Case) Describe() []string {
@@ -60,6 +63,9 @@ func (k *c16Case) Describe() []string {
 	}
 	if k.Fault.On {
 		l = append(l, k.Fault.String())
+	}
+	if k.Volume {
+		return append(l, "300 x deliver to [alice] (60 bytes), then purge \"alice\", while observer obsA is held in its first invocation")
 	}
 	for i, o := range k.Ops {
 		l = append(l, fmt.Sprintf("%3d %s", i, o))
@@ -124,6 +130,16 @@ func genC16(w *simrt.Choices, tier string, avoid map[string]bool) Case {
 	if k.Cfg.Backend == "file" && !k.Pairs {
 		k.Fault = genFSFault(w, len(k.Ops))
 	}
+	if w.Choose(40) == 0 {
+		k.Volume, k.Pairs, k.Fault = true, false, fsFault{}
+		k.Cfg.Cap, k.Cfg.MaxKB = 0, 0
+		k.Names = []string{"alice"}
+		k.Ops = nil
+		for i := 0; i < 300; i++ {
+			k.Ops = append(k.Ops, c16Op{Kind: "deliver", Rcpts: []string{"alice"}, Size: 60})
+		}
+		k.Ops = append(k.Ops, c16Op{Kind: "purge", Box: "alice"})
+	}
 	return k
 }
 
@@ -144,6 +160,8 @@ func runC16(c *Ctx, cs Case) {
 
 	var seq int64
 	stamp := func() int64 { seq++; return seq }
+	gateOpen := false
+	var gated *simrt.Task
 	mkObs := func(name string) *observer {
 		o := &observer{name: name}
 		handler := func(kind string) func(event.MessageMetadata) {
@@ -154,6 +172,12 @@ func runC16(c *Ctx, cs Case) {
 					o.maxOpen = o.open
 				}
 				ev := obsEvent{Kind: kind, Box: m.Mailbox, ID: m.ID, Size: m.Size, Start: stamp()}
+				if k.Volume && name == "obsA" && !gateOpen {
+					// held until everything has been emitted: the events pile up behind this call
+					gated = t
+					t.Block("observer held")
+					gated = nil
+				}
 				// a listener takes a moment: two scheduling points inside
 				t.Yield("observer " + name)
 				t.Yield("observer " + name)
@@ -272,6 +296,14 @@ func runC16(c *Ctx, cs Case) {
 		if c.Failed() {
 			return
 		}
+	}
+	if k.Volume {
+		c.Main.Quiesce()
+		gateOpen = true
+		if gated != nil {
+			c.Sim.MakeReady(gated)
+		}
+		c.Stat("probe.volume_runs_with_a_held_listener", 1)
 	}
 	// quiescence: every event goroutine has finished
 	c.Main.Quiesce()
